@@ -196,6 +196,7 @@ func runC01(c *kc.Ctx) {
 		src := pointSource(f.insts[0], rng)
 		// the use / overwrite / use-again patterns of C05 are histories too
 		sweep := deriveOverwritePrograms(rng.Fork("sweep"), f.q, src, groupCaps(f.insts[0]).base)
+		nProg := nProg / modelStride(c, f)
 		for i := 0; i < nProg+len(sweep); i++ {
 			dgen := c.Watch(90*time.Second, f.insts[0].Name+":pick/embed/hash", f.insts[0].Name+": generating input points through Pick/Embed/Hash", map[string]string{"group": f.insts[0].Name, "seed": fmt.Sprint(c.Seed)}, "proof")
 			var p prog
